@@ -1,5 +1,43 @@
 (* C03 correspondence cases: an input together with what quill answered, compared with the model *)
+From Coq Require Export ZArith Uint63.
 From FB Require Export C03.Model Base.Run.
+
+(* Case files carry every string as a short list of primitive 63-bit integers (coqc needs
+   about 0.1 ms to read one numeral of type N, and a case holds thousands of code points):
+   each integer packs up to seven bytes of the (generalised) UTF-8 form of the string,
+   i = count + 8 * (b0 + 256 * b1 + ...).  [u] decodes; it is only applied to the harness'
+   output, and a wrong decoding shows up as a disagreement. *)
+Definition int_N (i : int) : N := Z.to_N (Uint63.to_Z i).
+Fixpoint int_bytes_from (k : nat) (i : int) : list N :=
+  match k with
+  | O => []
+  | S k' => int_N (Uint63.land i 255) :: int_bytes_from k' (Uint63.lsr i 8)
+  end.
+Definition int_bytes (i : int) : list N :=
+  int_bytes_from (N.to_nat (int_N (Uint63.land i 7))) (Uint63.lsr i 3).
+Fixpoint utf8_dec (bs : list N) : str :=
+  match bs with
+  | [] => []
+  | b :: r =>
+      if N.ltb b 128 then b :: utf8_dec r
+      else if N.ltb b 224 then
+        match r with
+        | b1 :: r' => ((b - 192) * 64 + (b1 - 128)) :: utf8_dec r'
+        | _ => []
+        end
+      else if N.ltb b 240 then
+        match r with
+        | b1 :: b2 :: r' => ((b - 224) * 4096 + (b1 - 128) * 64 + (b2 - 128)) :: utf8_dec r'
+        | _ => []
+        end
+      else
+        match r with
+        | b1 :: b2 :: b3 :: r' => ((b - 240) * 262144 + (b1 - 128) * 4096 + (b2 - 128) * 64 + (b3 - 128)) :: utf8_dec r'
+        | _ => []
+        end
+  end.
+Definition u (l : list int) : str := utf8_dec (flat_map int_bytes l).
+Arguments u l%uint63.
 
 (* outcome of quill::tiny_v2::write_string on the implementation side *)
 Inductive wres := WOk (t : text) | WErr | WPanic.
@@ -22,20 +60,19 @@ Inductive case :=
 | CRead (n : N) (t : text) (r : res mappings)
     (* read::<n> of the text t; the result in IndexMap iteration order (compared exactly:
        the reader keeps the order of the lines) *)
-| CWriteRead (M : mappings) (w : wres) (r : res mappings)
-| CHyp (M : mappings) (b : bool).
+| CWriteRead (M : mappings) (hyp : bool) (w : wres) (r : res mappings).
     (* write_string M = w and, when w is a text, read::<number of namespaces of M> of it = r;
-       [CHyp]: the harness' copy of the theorems' hypotheses (wf M && textual M) agrees with Coq's *)
+       hyp: the harness' copy of the theorems' hypotheses (wf M && textual M) agrees with Coq's *)
 
 Definition check (c : case) : bool :=
   match c with
   | CWrite M w => wres_eqb (write_res M) w
   | CRead n t r => res_eqb mappings_eqb (read (N.to_nat n) t) r
-  | CWriteRead M w r =>
+  | CWriteRead M hyp w r =>
+      Bool.eqb (wf M && textual M) hyp &&
       wres_eqb (write_res M) w &&
       match w with
       | WOk t => res_eqb mappings_eqb (read (length (ms_ns M)) t) r
       | _ => match r with Err => true | _ => false end
       end
-  | CHyp M b => Bool.eqb (wf M && textual M) b
   end.
